@@ -103,6 +103,8 @@ def native_confirm(nat, v):
     out, sec = native_sections(nat, v['replay'])
     if out['rc'] != 0: return None
     locus = v['id'].split('/', 2)[-1].split('@')[0]
+    if v['job'].get('name') == 'rates':
+        return any(o.bad is True and o.locus == locus for o in rate_obligations(sec, v['job'], None))
     for k, (b, call, a) in enumerate(steps_of(sec)):
         for o in per_step(k, b, call, a, None, sec):
             if o.bad is True and o.locus == locus: return True
